@@ -45,6 +45,15 @@ def _make_data(cfg):
                 comp = np.multiply.outer(comp, f[:, j])
             out += comp
         return out
+    if kind == "noisy_lowrank":      # low CP rank plus noise of the same magnitude: slow ALS progress, big line-search jumps
+        fs = [rng.random_sample((s, 3)) for s in shape]
+        out = np.zeros(shape)
+        for j in range(3):
+            comp = fs[0][:, j]
+            for f in fs[1:]:
+                comp = np.multiply.outer(comp, f[:, j])
+            out += comp
+        return out + rng.standard_normal(shape) * np.std(out)
     if kind == "nonneg":
         return rng.random_sample(shape) + 0.05
     if kind == "nn_lowrank":
@@ -417,7 +426,7 @@ def make_input(cfg):
         return [s_ * sc for s_ in x]
     if sc and cfg["alg"] == "cmtf":
         return (x[0] * sc, x[1] * sc)
-    return x
+    return x * sc if sc else x
 
 
 def _make_input(cfg):
@@ -569,7 +578,10 @@ def warm_measure(cfg, data, k, dec, rawinit):
     if kind in ("cp", "cp_sparse"):
         iw, ifs = rawinit
         init_dense = cp_dense(iw, ifs)
-        w["init_dev"] = qe(rel(cp_dense(dec[1], dec[2]) - init_dense, init_dense))
+        try:
+            w["init_dev"] = qe(rel(cp_dense(dec[1], dec[2]) - init_dense, init_dense))
+        except ValueError:
+            w["init_dev"] = QNAN
         w["bit_identical"] = [bit_identical(a, b) for a, b in zip(dec[2], ifs)]
         if cfg.get("twin"):
             res2 = run_alg(dict(cfg, init_absorb=True), copy.deepcopy(data), k)
@@ -579,7 +591,10 @@ def warm_measure(cfg, data, k, dec, rawinit):
     elif kind == "tucker":
         icore, ifs = rawinit
         init_dense = tucker_dense(icore, ifs)
-        w["init_dev"] = qe(rel(tucker_dense(dec[1], dec[2]) - init_dense, init_dense))
+        try:
+            w["init_dev"] = qe(rel(tucker_dense(dec[1], dec[2]) - init_dense, init_dense))
+        except ValueError:          # the returned (core, factors) do not even fit together / have another shape
+            w["init_dev"] = QNAN
         w["bit_identical"] = [bit_identical(a, b) for a, b in zip(dec[2], ifs)]
     elif kind == "parafac2":
         if rawinit[0] == "parafac2":
@@ -631,6 +646,7 @@ def record_trace(cfg, K=K_QUICK):
         ev["out"] = "ok"
         ev["errs"] = errs_q(cfg, data, errs) if errs is not None else []
         ev["n_errs"] = -1 if errs is None else len(errs)
+        ev["malformed"] = False
         try:
             ev["true"] = qe(true_error(cfg, data, dec, res.get("extra")))
         except Exception as ex:
@@ -641,8 +657,13 @@ def record_trace(cfg, K=K_QUICK):
                 ev["warm"] = warm_measure(cfg, data, k, dec, res["rawinit"])
             except Exception as ex:
                 return [{"id": tid, "harness_error": "warm_measure: %r" % (ex,)}]
-        ev["st"] = structure(cfg, data if cfg["alg"] not in ("parafac2", "cmtf") else (data if cfg["alg"] != "cmtf" else data[0]), dec) \
-            if cfg["alg"] != "parafac2" else structure(cfg, None, dec)
+        try:
+            ev["st"] = structure(cfg, data if cfg["alg"] not in ("parafac2", "cmtf") else (data if cfg["alg"] != "cmtf" else data[0]), dec) \
+                if cfg["alg"] != "parafac2" else structure(cfg, None, dec)
+        except ValueError as ex:
+            # the returned pieces do not fit together (e.g. factors in the wrong positions): not a decomposition of this format
+            ev["malformed"] = True
+            ev["st"] = {"kind": "malformed", "mins": [], "why": str(ex)[:80]}
         events.append(ev)
     if cfg.get("callback"):
         try:
@@ -710,6 +731,32 @@ def nonneg_extra_configs(tier, seed):
             constraints={"non_negative": True}, inner=int(rng.choice([1, 10])))
     add("parafac2", shape=[3, 0, 4], rows=[4, 5, 4], rank=2, data="generic", init="random", tol="tiny", nn_modes=[0])
     add("parafac2", shape=[3, 0, 4], rows=[4, 5, 4], rank=2, data="nonneg", init="svd", tol="tiny", nn_modes=[0, 2], normalize=True)
+    # every non-negative algorithm x every data kind x both built-in initialisations
+    thorough = tier == "thorough"
+    for alg in ("nn_parafac", "nn_parafac_hals", "nn_tucker", "nn_tucker_hals", "constrained_parafac"):
+        for data in ("signed", "negative", "sparse", "integer", "nonneg"):
+            for init in ("svd", "random"):
+                kw = {}
+                rank = 2
+                if alg in ("nn_tucker", "nn_tucker_hals"):
+                    rank = [2, 2, 2]
+                if alg == "nn_tucker_hals":
+                    kw["algorithm"] = str(rng.choice(["fista", "active_set"]))
+                if alg == "constrained_parafac":
+                    kw["constraints"] = {"non_negative": True} if rng.rand() < 0.6 else {"non_negative": {0: True, 2: True}}
+                    kw["inner"] = int(rng.choice([1, 3, 10]))
+                add(alg, shape=[4, 5, 3] if rng.rand() < 0.7 else [3, 4, 2, 3][:3 if alg.startswith("nn_tucker") else 4], rank=rank, data=data, init=init,
+                    tol=str(rng.choice(["zero", "tiny", "loose"])), normalize=bool(rng.rand() < 0.4) and alg != "constrained_parafac",
+                    caps=[0, 1, 2, 3, 5, 8] if thorough else [0, 1, 2, 5], **kw)
+    # PARAFAC2 with non-negative modes AND line search: the extrapolated iterate must be clipped too; a run that ENDS on an
+    # accepted line step (caps 7, 9, 11, 13) returns it without a further projection
+    for j in range(10 if thorough else 5):
+        add("parafac2", shape=[3, 0, 4], rows=[[5, 5, 5], [4, 6, 5]][j % 2], rank=2, data=["nonneg", "generic", "nn_lowrank"][j % 3],
+            init=["random", "svd"][j % 2], tol="tiny", nn_modes=[[0, 2], [0, 2], [2], [0]][j % 4], linesearch=True, caps=[0, 1, 6, 7, 8, 9, 10, 11, 12, 13])
+    # ... and many single runs that stop right after a line-search iteration (an overshoot below zero is rare: ~1 run in 20)
+    for j in range(240 if thorough else 80):
+        add("parafac2", shape=[3, 0, 4], rows=[[5, 5, 5], [4, 6, 5], [6, 6, 6]][j % 3], rank=2 + (j % 5 == 0), data=["nonneg", "generic", "nn_lowrank", "signed"][j % 4],
+            init=["random", "svd"][j % 2], tol="tiny", nn_modes=[0, 2], linesearch=True, caps=[[7], [9], [11], [13]][j % 4], scale=[None, None, 1e-2][j % 3])
     return cfgs
 
 
@@ -826,6 +873,20 @@ def driver_configs(tier, seed, algs=None):
             caps=list(range(0, 15)))
         add("parafac2", shape=[3, 0, 4], rows=[5, 5, 5], rank=2, data="generic", init="random", tol="tiny", linesearch=True, scale=sc,
             caps=list(range(0, 13)))
+    # ---- long line-search runs on noisy low-rank data (late jumps extrapolate 4-6x): one long run exposes the whole reported list
+    LONG = [0, 1, 2, 6, 7, 8, 9, 12, 13, 20, 21, 30, 31, 40]
+    for sc in (None, 1e-2):
+        for rk in (2, 3):
+            add("parafac", shape=[6, 7, 8], rank=rk, data="noisy_lowrank", init="random", tol="tiny", linesearch=True, scale=sc, caps=LONG,
+                callback=bool(rng.rand() < 0.5))
+        add("parafac2", shape=[4, 0, 5], rows=[6, 6, 6, 6], rank=2, data="generic", init="random", tol="tiny", linesearch=True, scale=sc, caps=LONG)
+    # ---- many single long line-search runs (a wrongly accepted jump is rare: ~1 run in 16 even when the acceptance test is wrong)
+    for j in range(400 if thorough else 64):
+        add("parafac", shape=[6, 7, 8], rank=2 + j % 2, data="noisy_lowrank", init="random", tol="tiny", linesearch=True,
+            scale=[1e-3, 1e-2, None, 1e-4][j % 4], caps=[40], callback=False)
+    for j in range(40 if thorough else 12):
+        add("parafac2", shape=[4, 0, 5], rows=[6, 6, 6, 6], rank=2, data="generic", init="random", tol="tiny", linesearch=True,
+            scale=[1e-2, None][j % 2], caps=[30])
     # ---- tensor ring with over-parameterised ranks: rank-deficient block least-squares problems
     for shape, rank in (([2, 5, 4], [3, 1, 2, 3]), ([3, 2, 4], [2, 3, 1, 2]), ([2, 3, 2], [3, 2, 3, 3])):
         add("tr_als", shape=shape, rank=rank, data="generic", init="random", tol=str(rng.choice(["zero", "loose"])), callback=True, ls_solve="lstsq")
@@ -915,6 +976,23 @@ def warm_configs(tier, seed):
     add("tucker", shape=shape, rank=[2, 3, 2], data="generic", tol="zero")
     for fx in subsets[1:7]:
         add("tucker", shape=shape, rank=[2, 3, 2], data="generic", tol="zero", fixed=fx)
+    # fixed modes given in arbitrary order, order-4 data
+    for fx in ([1, 0], [2, 0], [2, 1], [2, 0, 1]):
+        add("tucker", shape=shape, rank=[2, 3, 2], data="generic", tol="zero", fixed=fx)
+    for fx in ([3, 1], [2, 0, 1], [1, 3, 0], [0, 2]):
+        add("tucker", shape=[3, 4, 2, 3], rank=[2, 2, 2, 2], data="generic", tol="zero", fixed=fx)
+    # fixed modes together with non-unit weights in the initialisation (the weights may only be pulled into a mode that is not fixed)
+    for alg, kw in (("parafac", {"data": "generic"}), ("nn_parafac", {"data": "nonneg", "init_kind": "nonneg", "tol": "tiny"}),
+                    ("nn_parafac_hals", {"data": "nonneg", "init_kind": "nonneg", "tol": "tiny"}),
+                    ("constrained_parafac", {"data": "generic", "constraints": {"l2_square_reg": 0.01}}),
+                    ("constrained_parafac", {"data": "nonneg", "init_kind": "nonneg", "constraints": {"non_negative": True}})):
+        for fx in ([0], [1], [0, 1], [1, 0]):
+            base = dict(shape=shape, rank=2, init_weights="positive", tol="zero", fixed=fx)
+            base.update(kw)
+            add(alg, **base)
+        base = dict(shape=[3, 4, 2, 3], rank=2, init_weights="positive", tol="zero", fixed=[2, 0])
+        base.update(kw)
+        add(alg, **base)
     # NN Tucker HALS
     add("nn_tucker_hals", shape=shape, rank=[2, 2, 2], data="nonneg", tol="zero", algorithm="fista", caps=[0, 1, 2])
     for fx in ([0], [1], [0, 1], [2]):
